@@ -11,6 +11,7 @@ import (
 	"strconv"
 	"strings"
 	"sync"
+	"sync/atomic"
 	"time"
 
 	apifu "github.com/ccbrown/api-fu"
@@ -64,6 +65,7 @@ type reg struct {
 	result  graphql.ResolveResult
 	res     mres
 	chained bool
+	ch      graphql.ResolvePromise
 	exec    int // index of the execution that registered it
 	flushed int // round in which a batch function received it (0: pending, -1: its execution returned first)
 	seen    int // number of times a batch function received it
@@ -79,6 +81,7 @@ type inv struct {
 	r         *reg
 	conn      bool // a connection field
 	connAsync bool // its edges came through promises that pagination.go's own goroutines consume: delivery not observable
+	finalPid  int  // hook mode: the chain promise the connection's resolver returned (-1: unknown)
 }
 
 type event struct {
@@ -105,15 +108,16 @@ type roundObs struct {
 }
 
 type openConn struct {
-	key      string
-	promises []int
-	tasks    []*task
-	regs     []*reg
-	failed   bool
-	inv      *inv
-	calls    int
-	zero     bool
-	isTime   bool
+	key          string
+	promises     []int
+	tasks        []*task
+	regs         []*reg
+	failed       bool
+	lastInternal int // hook mode: the last chain/join promise created for this invocation (-1: none)
+	inv          *inv
+	calls        int
+	zero         bool
+	isTime       bool
 }
 
 type world struct {
@@ -140,10 +144,27 @@ type world struct {
 	pumpDone     chan struct{}
 	pumped       int
 	execs        int
+	expect       *task                          // hook mode: the task whose apifu.Go call is about to happen
+	chanPid      map[graphql.ResolvePromise]int // hook mode: promise -> model id
+	pendingChain []int                          // hook mode: inputs of the chain/join whose Go call comes next
+	pidRound     map[int]int                    // hook mode: idle round in which the handler received the promise's resolution
+	taskByPid    map[int]*task
+	regByPid     map[int]*reg
 	invMap       map[string]*inv
 	invList      []*inv
 	curDep       int
 }
+
+// curWorld is the world of the case being served (hook mode: api.go's trace points have no context).
+var curWorld worldPtr
+
+type worldPtr struct{ v atomic.Value }
+
+func (p *worldPtr) Load() *world {
+	w, _ := p.v.Load().(*world)
+	return w
+}
+func (p *worldPtr) Store(w *world) { p.v.Store(w) }
 
 func worldOf(ctx context.Context) *world {
 	w, _ := ctx.Value(worldKey).(*world)
@@ -225,6 +246,74 @@ func (w *world) anomaly(format string, a ...any) {
 
 func (w *world) allocPid() int { p := w.nextPid; w.nextPid++; return p }
 
+// eventLog returns a copy of the events recorded so far.
+func (w *world) eventLog() []event {
+	w.mu.Lock()
+	defer w.mu.Unlock()
+	return append([]event{}, w.events...)
+}
+
+func (w *world) addEvent(e event) {
+	w.mu.Lock()
+	w.events = append(w.events, e)
+	w.mu.Unlock()
+}
+
+// hookEvent receives api.go's trace points (hook mode).
+func (w *world) hookEvent(ev string, ps []graphql.ResolvePromise) {
+	w.mu.Lock()
+	defer w.mu.Unlock()
+	if w.chanPid == nil {
+		w.chanPid = map[graphql.ResolvePromise]int{}
+		w.pidRound = map[int]int{}
+	}
+	pidOf := func(p graphql.ResolvePromise) int {
+		if id, ok := w.chanPid[p]; ok {
+			return id
+		}
+		for _, r := range w.regs { // a Batch promise: known to the harness since the resolver returned it
+			if r.ch == p {
+				return r.pid
+			}
+		}
+		return -1
+	}
+	switch ev {
+	case "chain", "join":
+		w.pendingChain = nil
+		for _, p := range ps {
+			id := pidOf(p)
+			w.pendingChain = append(w.pendingChain, id)
+			if t := w.taskByPid[id]; t != nil {
+				t.chained = true
+			}
+			if r := w.regByPid[id]; r != nil {
+				r.chained = true
+			}
+		}
+	case "go":
+		if w.expect != nil {
+			w.chanPid[ps[0]] = w.expect.pid
+			w.expect = nil
+			return
+		}
+		id := w.allocPid()
+		w.chanPid[ps[0]] = id
+		w.events = append(w.events, event{kind: "chain", pid: id, waits: w.pendingChain})
+		w.pendingChain = nil
+		w.internal++
+		if w.open != nil {
+			w.open.lastInternal = id
+		}
+	case "recv", "drain", "released":
+		id := pidOf(ps[0])
+		w.events = append(w.events, event{kind: ev, pid: id, round: w.round})
+		if ev != "released" {
+			w.pidRound[id] = w.round
+		}
+	}
+}
+
 // closeOpen records the chain/join goroutines pagination.go started for the connection invocation
 // whose edge promises were handed out most recently. They are created on the executor's goroutine
 // right after our getter returns, i.e. before the next harness-visible event.
@@ -236,6 +325,10 @@ func (w *world) closeOpen() {
 	}
 	if o.inv != nil {
 		o.inv.connAsync = true
+		o.inv.finalPid = o.lastInternal
+	}
+	if hookMode {
+		return // chain/join calls are reported by the hook
 	}
 	for _, t := range o.tasks {
 		t.chained = true
@@ -287,7 +380,7 @@ func (w *world) noteInv(key, objKey string, conn bool) *inv {
 	}
 	x := w.invMap[key]
 	if x == nil {
-		x = &inv{key: key, parent: producer(objKey), round: w.round, exec: w.execs, conn: conn}
+		x = &inv{key: key, parent: producer(objKey), round: w.round, exec: w.execs, conn: conn, finalPid: -1}
 		w.invMap[key] = x
 		w.invList = append(w.invList, x)
 	}
@@ -329,7 +422,14 @@ func (w *world) newTask(key string, sp Spec, mr mres) *task {
 		t.gate = make(chan struct{})
 	}
 	w.tasks = append(w.tasks, t)
-	w.events = append(w.events, event{kind: "go", pid: t.pid, dep: w.curDep})
+	if w.taskByPid == nil {
+		w.taskByPid = map[int]*task{}
+	}
+	w.taskByPid[t.pid] = t
+	w.addEvent(event{kind: "go", pid: t.pid, dep: w.curDep})
+	w.mu.Lock()
+	w.expect = t
+	w.mu.Unlock()
 	return t
 }
 
@@ -362,10 +462,19 @@ func (w *world) async(ctx graphql.FieldContext, key string, sp Spec, val interfa
 	case "batch":
 		r := &reg{id: len(w.regs), k: sp.Batch % nBatchers, key: key, pid: w.allocPid(), result: graphql.ResolveResult{Value: val, Error: err}, res: mr, exec: w.execs}
 		w.regs = append(w.regs, r)
-		w.events = append(w.events, event{kind: "batch", pid: r.pid, k: r.k, item: r.id, dep: w.curDep})
+		if w.regByPid == nil {
+			w.regByPid = map[int]*reg{}
+		}
+		w.regByPid[r.pid] = r
+		w.addEvent(event{kind: "batch", pid: r.pid, k: r.k, item: r.id, dep: w.curDep})
 		c2 := ctx
 		c2.Context = context.WithValue(ctx.Context, regKey, r)
 		p, e := batchers[r.k](c2)
+		if rp, ok := p.(graphql.ResolvePromise); ok {
+			w.mu.Lock()
+			r.ch = rp
+			w.mu.Unlock()
+		}
 		return p, nil, r, e
 	}
 	return val, nil, nil, err
@@ -418,7 +527,7 @@ func resolve(kind byte) func(graphql.FieldContext) (interface{}, error) {
 func (w *world) ensureOpen(key string, zero, isTime bool) *openConn {
 	if w.open == nil || w.open.key != key {
 		w.closeOpen()
-		w.open = &openConn{key: key, zero: zero, isTime: isTime}
+		w.open = &openConn{key: key, zero: zero, isTime: isTime, lastInternal: -1}
 	}
 	return w.open
 }
@@ -606,7 +715,7 @@ func (w *world) idleEnter() {
 		}
 	}
 	w.rounds = append(w.rounds, ro)
-	w.events = append(w.events, event{kind: "idle", round: w.round})
+	w.addEvent(event{kind: "idle", round: w.round})
 	// Release the next group of gated tasks: k tasks in rank order, and further ones until a task the
 	// executor itself awaits is among them — a resolution consumed by a chain/join goroutine makes the
 	// idle handler loop instead of returning, so it cannot be the only thing this round provides.
@@ -689,6 +798,9 @@ func (w *world) candidates() []*task {
 func (w *world) idleExit() {
 	close(w.pumpStop)
 	<-w.pumpDone
+	if hookMode {
+		w.addEvent(event{kind: "iret", round: w.round})
+	}
 	w.mu.Lock()
 	w.inIdle = false
 	calls := append([]callObs{}, w.calls...)
@@ -722,6 +834,9 @@ func (w *world) idleExit() {
 // execReturned: one execution (HTTP request, WS operation or subscription event) has returned.
 func (w *world) execReturned() {
 	w.closeOpen()
+	if hookMode {
+		w.addEvent(event{kind: "ret"})
+	}
 	w.execs++
 	for _, r := range w.regs {
 		if r.flushed == 0 {
@@ -838,6 +953,9 @@ func buildAPI() *apifu.API {
 		return nil, errors.New("subscriptions are not supported using this protocol")
 	}})
 	cfg.Execute = func(r *graphql.Request, info *apifu.RequestInfo) *graphql.Response {
+		if w := worldOf(r.Context); w != nil && hookMode && w.execs > 0 {
+			w.addEvent(event{kind: "start"})
+		}
 		if w := worldOf(r.Context); w != nil && r.IdleHandler != nil {
 			orig := r.IdleHandler
 			r.IdleHandler = func() {
